@@ -30,34 +30,39 @@ def falsify(ctx, case: Dict) -> bool:
     stage = "build"
     try:
         with core.time_limit(60):
-            objs = [hx.member(s, tf) for s, tf in zip(specs, tfs)]
-            if len({m.name for m in objs}) != len(objs):
-                return False
-            if form == "object":
-                members = objs
-            elif form == "settings":
-                members = [m.settings for m in objs]
-            else:  # hand-written dict
-                members = []
-                for s, tf in zip(specs, tfs):
-                    d = {"indicator": {"STDEV": "STDEV", "HL": "HL", "HLA": "HLA", "SUPERTREND": "Supertrend", "COUNTER": "Counter",
-                                       "DONCHIAN": "donchian", "AROON": "aroon"}.get(s["kind"], s["kind"]), **s["kw"],
-                         "round_value": s.get("round_value", 4)}
-                    if s.get("fullname"):
-                        d["fullname_override"] = s["fullname"]
-                    if tf:
-                        d["timeframe"] = tf
-                    if s["kind"] == "AMORPH":
-                        a = s["analysis"]
-                        # arguments of the analysis function go under "args" (a top-level "indicator"
-                        # key would be taken for the indicator class name)
-                        d = {"analysis": a["f"] if a["f"] != "inverted_hammer" else "inv_hammer",
-                             "args": A.kwargs_of(a), "round_value": s.get("round_value", 4)}
+            def make_members():
+                objs = [hx.member(s, tf) for s, tf in zip(specs, tfs)]
+                if len({m.name for m in objs}) != len(objs):
+                    return None, None
+                if form == "object":
+                    members = objs
+                elif form == "settings":
+                    members = [m.settings for m in objs]
+                else:  # hand-written dict
+                    members = []
+                    for s, tf in zip(specs, tfs):
+                        d = {"indicator": {"STDEV": "STDEV", "HL": "HL", "HLA": "HLA", "SUPERTREND": "Supertrend", "COUNTER": "Counter",
+                                           "DONCHIAN": "donchian", "AROON": "aroon"}.get(s["kind"], s["kind"]), **s["kw"],
+                             "round_value": s.get("round_value", 4)}
                         if s.get("fullname"):
                             d["fullname_override"] = s["fullname"]
                         if tf:
                             d["timeframe"] = tf
-                    members.append(d)
+                        if s["kind"] == "AMORPH":
+                            a = s["analysis"]
+                            # arguments of the analysis function go under "args" (a top-level "indicator"
+                            # key would be taken for the indicator class name)
+                            d = {"analysis": a["f"] if a["f"] != "inverted_hammer" else "inv_hammer",
+                                 "args": A.kwargs_of(a), "round_value": s.get("round_value", 4)}
+                            if s.get("fullname"):
+                                d["fullname_override"] = s["fullname"]
+                            if tf:
+                                d["timeframe"] = tf
+                        members.append(d)
+                return objs, members
+            objs, members = make_members()
+            if objs is None:
+                return False
             h = hx.hexital(rows[:init_n], members, hcfg)
             stage = "calculate"
             h.calculate()
@@ -89,6 +94,19 @@ def falsify(ctx, case: Dict) -> bool:
                         # manager's candles, which the lifespan has already trimmed
                         bad = {"relation": "member-differs-from-standalone", "what": d[1], "own_tf": True,
                                "seeded_from_trimmed_candles": True}
+                    elif hcfg.get("tf") and hcfg.get("fill") and tf and init_n > 1:
+                        # ... and which the Hexital-level timeframe_fill has already padded with fill
+                        # candles on the default grid; they are merged into the member's buckets.
+                        # Confirmed per case: the same Hexital fed everything through append agrees
+                        objs2, members2 = make_members()
+                        h2 = hx.hexital([], members2, hcfg)
+                        h2.append(X.mk_rows(rows[:init_n]))
+                        for ch in case["chunks"]:
+                            h2.append(X.mk_rows(ch))
+                        d2 = E.same_snapshot(project(member_view(h2.indicator(o.name)), keys_i, keys_s), project(a, keys_i, keys_s))
+                        if d2 is None:
+                            bad = {"relation": "member-differs-from-standalone", "what": d[1], "own_tf": True,
+                                   "seeded_from_filled_candles": True}
             if bad is None and not hcfg.get("ha") and not hcfg.get("tf") and hcfg.get("lifespan") is None:
                 want = [(r["ts"], r["open"], r["high"], r["low"], r["close"], r["volume"]) for r in rows]
                 if raw0 != want:
